@@ -85,6 +85,9 @@ type Options struct {
 	Listener    ledgercontroller.Listener
 	Enforcement ledgercontroller.SchemaEnforcementMode
 	Interpreter bool // also register the interpreter parser
+	// ScriptCache: capacity of the compiled-script cache in front of both Numscript parsers, wired as
+	// system.NewFXModule does. 0 = the service's default (--numscript-cache-max-count=1024), < 0 = no cache.
+	ScriptCache int
 }
 
 func New(o Options) *Env {
@@ -92,13 +95,21 @@ func New(o Options) *Env {
 	sqldb := pgsim.OpenDB(sim)
 	db := bun.NewDB(sqldb, pgdialect.New(), bun.WithDiscardUnknownColumns())
 	d := driver.New(db, ledgerstore.NewFactory(db), simBucketFactory{sim}, systemstore.NewStoreFactory())
+	var (
+		machineParser     ledgercontroller.NumscriptParser = ledgercontroller.NewDefaultNumscriptParser()
+		interpreterParser ledgercontroller.NumscriptParser = ledgercontroller.NewInterpreterNumscriptParser(nil)
+	)
+	if o.ScriptCache >= 0 {
+		n := uint(o.ScriptCache)
+		if n == 0 {
+			n = 1024
+		}
+		machineParser = ledgercontroller.NewCachedNumscriptParser(machineParser, ledgercontroller.CacheConfiguration{MaxCount: n})
+		interpreterParser = ledgercontroller.NewCachedNumscriptParser(interpreterParser, ledgercontroller.CacheConfiguration{MaxCount: n})
+	}
 	opts := []systemcontroller.Option{
 		systemcontroller.WithEnableFeatures(true),
-		systemcontroller.WithParser(
-			ledgercontroller.NewDefaultNumscriptParser(),
-			ledgercontroller.NewDefaultNumscriptParser(),
-			ledgercontroller.NewInterpreterNumscriptParser(nil),
-		),
+		systemcontroller.WithParser(machineParser, machineParser, interpreterParser),
 	}
 	if o.Enforcement != "" {
 		opts = append(opts, systemcontroller.WithSchemaEnforcementMode(o.Enforcement))
